@@ -32,6 +32,10 @@ CLAIMS = {
     text='Lean 4 theorem roundtrip_struct (reader after writer = identity and consumes all text, for every struct type and every well-typed unambiguous value, with the text primitives proved rather than assumed) and the percent-encoding round trip; tied to the code by a differential run of the real to_string / from_bytes / QueryParams::iter against the writer and reader models, and of decoded texts against an independent RFC 3986 pair reader',
     note=TB + 'modelled not verified: serde derive visitor protocol, str::parse, from_utf8, percent_encoding (hand models; PrimsOK proved for them); floats outside the catalogue; known finding KF-C09-empty-ambiguity',
     technique='Lean 4 proof (round trip by induction over fields/values) + model/implementation correspondence'),
+ 'C11': dict(
+    text='Lean 4 theorems over the cookie models (value_roundtrip_pct: a percent-encoded value of arbitrary Unicode text, alone or followed by "; more", is read back exactly and leaves the rest for the next cookie; name_roundtrip: a token name followed by "=" is read as that name; setcookie_pair: the built Set-Cookie line starts with name=percent-encoded value made only of cookie-octets); differential run of the real struct decoder, cookie iterator, Set-Cookie builder (wire bytes) and SetCookie::from_raw against the models, against jars in the three RFC 6265 value forms, and against an independent RFC 6265 set-cookie-string grammar over all 128 directive subsets',
+    note=TB + 'the whole-jar and whole-line round trips are decided per run (model + independent grammar); their Lean proofs (induction over the jar / the directive list) are not written; known finding KF-C11-iter-cookies',
+    technique='Lean 4 proof (section-level round-trip lemmas) + model/implementation correspondence + independent grammar'),
  'C12': dict(
     text='Lean 4 theorems over the model of JWT::verified with HMAC, JSON and the clock as parameters (admit_sound: the handler runs only for a three-part token whose signature is the MAC of header.payload under the configured key and algorithm, whose header names the algorithm and whose claims admit now, and sees the signed payload; refused_otherwise: every other outcome is a 4xx/5xx status without running the inside); differential run of an application behind the real fang with a pinned clock (hook H5) against the model and against an admission predicate written with Python hmac/json; tokens from the real issue must verify',
     note=TB + 'parameters, not verified: HMAC-SHA2 (values from Python hmac), serde_json (values from Python json on the same bytes), base64 URL_SAFE_NO_PAD engine (concrete Lean model, validated by the run)',
